@@ -31,12 +31,21 @@ func newCompiler(src []sourceLine, metadata WarriorData, config SimulatorConfig)
 	}, nil
 }
 
+// predefinedConstants returns the values of the predefined symbols for config.
+func predefinedConstants(config SimulatorConfig) map[string][]token {
+	return map[string][]token{
+		"CORESIZE":     {{tokNumber, fmt.Sprintf("%d", config.CoreSize)}},
+		"MAXLENGTH":    {{tokNumber, fmt.Sprintf("%d", config.Length)}},
+		"MAXPROCESSES": {{tokNumber, fmt.Sprintf("%d", config.Processes)}},
+		"MINDISTANCE":  {{tokNumber, fmt.Sprintf("%d", config.Distance)}},
+		// "CURLINE": {{tokNumber, "0"}},
+	}
+}
+
 func (c *compiler) loadConstants() {
-	c.values["CORESIZE"] = []token{{tokNumber, fmt.Sprintf("%d", c.config.CoreSize)}}
-	c.values["MAXLENGTH"] = []token{{tokNumber, fmt.Sprintf("%d", c.config.Length)}}
-	c.values["MAXPROCESSES"] = []token{{tokNumber, fmt.Sprintf("%d", c.config.Processes)}}
-	c.values["MINDISTANCE"] = []token{{tokNumber, fmt.Sprintf("%d", c.config.Distance)}}
-	// c.values["CURLINE"] = []token{{tokNumber, "0"}}
+	for name, value := range predefinedConstants(c.config) {
+		c.values[name] = value
+	}
 }
 
 // load symbol []token values into value map and code line numbers of
@@ -337,6 +346,12 @@ func CompileWarrior(r io.Reader, config SimulatorConfig) (WarriorData, error) {
 			return WarriorData{}, fmt.Errorf("symbol scanner: %s", err)
 		}
 		if forSeen {
+			// FOR counts may use the predefined constants as well
+			for name, value := range predefinedConstants(config) {
+				if _, ok := symbols[name]; !ok {
+					symbols[name] = value
+				}
+			}
 			expandedTokens, err := ForExpand(newBufTokenReader(tokens), symbols)
 			if err != nil {
 				return WarriorData{}, fmt.Errorf("for: %s", err)
